@@ -197,7 +197,7 @@ func newAclWorld() *aclWorld {
 	add("requestAccept(J)->J", O, J, func(b B, _ *list.AclState) (R, error) {
 		return b.BuildRequestAccept(list.RequestAcceptPayload{RequestRecordId: w.joinReq, Permissions: list.AclPermissionsWriter})
 	})
-	add("inviteJoin(K)->K", K, K, func(b B, _ *list.AclState) (R, error) {
+	add("inviteJoin(K)", K, V, func(b B, _ *list.AclState) (R, error) {
 		return b.BuildInviteJoinWithoutApprove(list.InviteJoinPayload{InviteKey: w.inv2Key, Permissions: list.AclPermissionsReader, Metadata: []byte("k")})
 	})
 	add("accountRemove(W)->V", O, V, func(b B, _ *list.AclState) (R, error) {
@@ -239,7 +239,7 @@ func newAclWorld() *aclWorld {
 	add("requestCancel(J)", J, V, func(b B, _ *list.AclState) (R, error) {
 		return b.BuildRequestCancel(w.joinReq)
 	})
-	add("requestRemove(V)", V, V, func(b B, _ *list.AclState) (R, error) {
+	add("requestRemove(V)", V, O, func(b B, _ *list.AclState) (R, error) {
 		return b.BuildRequestRemove()
 	})
 	add("spaceOptions", O, V, func(b B, _ *list.AclState) (R, error) {
@@ -401,9 +401,9 @@ func (w *aclWorld) typed(sd *aclSeed) (out []job) {
 						ml.Append(protoreflect.ValueOfMessage(proto.Clone(ml.Get(0).Message().Interface()).ProtoReflect()))
 					})
 					if proto.Size(l.Get(0).Message().Interface()) <= 256 {
-						apply(path, fname+":first-x4096", func(m protoreflect.Message) {
+						apply(path, fname+":first-x2048", func(m protoreflect.Message) {
 							ml := m.Mutable(fd).List()
-							for k := 0; k < 4095; k++ {
+							for k := 0; k < 2047; k++ {
 								ml.Append(ml.Get(0)) // aliasing is fine: the clone is only marshalled
 							}
 						})
@@ -423,9 +423,9 @@ func (w *aclWorld) typed(sd *aclSeed) (out []job) {
 						ml := m.Mutable(fd).List()
 						ml.Append(protoreflect.ValueOfBytes(append([]byte{}, ml.Get(0).Bytes()...)))
 					})
-					apply(path, fname+":first-x4096", func(m protoreflect.Message) {
+					apply(path, fname+":first-x2048", func(m protoreflect.Message) {
 						ml := m.Mutable(fd).List()
-						for k := 0; k < 4095; k++ {
+						for k := 0; k < 2047; k++ {
 							ml.Append(ml.Get(0))
 						}
 					})
@@ -545,7 +545,7 @@ func registerACL(c *vk.Ctx) {
 	register(&entry{
 		name:  "acl.ValidateRawRecord",
 		what:  "AclList.ValidateRawRecord on a fully validating list built with the observer's (victim's) keys; input = AclData of a record of every content kind, mutated, then re-signed by its author (F2)",
-		seeds: seeds, opts: aclOpts(6), extra: extra, worker: newWorker, pairs: true,
+		seeds: seeds, opts: aclOpts(6), extra: extra, worker: newWorker, pairs: true, pairSeeds: 5, pairLight: true,
 		call: func(wk any, si int, data []byte) error {
 			aw := wk.(*aclWorker)
 			sd := &w.seeds[si]
@@ -645,9 +645,6 @@ func registerACL(c *vk.Ctx) {
 	for _, i := range []int{3, 4, 0} {
 		kiSeeds = append(kiSeeds, seed{name: w.seeds[i].name, data: w.seeds[i].data})
 	}
-	diverge := func(label string, data []byte, what string) {
-		c.Violation("diff:acl.keepIdentity:"+label, fmt.Sprintf("unmarshalAclDataKeepIdentity and fullDecodeFilter disagree (%s) on %x", what, data), nil)
-	}
 	register(&entry{
 		name:  "acl.keepIdentity",
 		what:  "differential: list.unmarshalAclDataKeepIdentity vs list.fullDecodeFilter (accept/reject and kept content) on mutated AclData, isOurs = the victim's identity matcher",
@@ -666,14 +663,13 @@ func registerACL(c *vk.Ctx) {
 			got, gerr := list.VerifKeepIdentity(b, data)
 			want, werr := list.VerifFullDecodeFilter(b, data)
 			if (gerr == nil) != (werr == nil) {
-				diverge("verdict", data, fmt.Sprintf("keep-identity err=%v, full err=%v", gerr, werr))
-				return gerr
+				return &violationErr{"diff:acl.keepIdentity:verdict", fmt.Sprintf("unmarshalAclDataKeepIdentity and fullDecodeFilter disagree: keep-identity err=%v, full err=%v", gerr, werr)}
 			}
 			if gerr == nil {
 				gb, _ := got.MarshalVT()
 				wb, _ := want.MarshalVT()
 				if !bytes.Equal(gb, wb) || !proto.Equal(got, want) {
-					diverge("content", data, fmt.Sprintf("keep-identity %x, full %x", gb, wb))
+					return &violationErr{"diff:acl.keepIdentity:content", fmt.Sprintf("unmarshalAclDataKeepIdentity and fullDecodeFilter keep different content: keep-identity %x, full %x", gb, wb)}
 				}
 			}
 			return gerr
